@@ -255,6 +255,18 @@ def run(repo, root):
         else:
             out[n]["reason"] = why
 
+    # a translation that uses the `pack` / `unpack` contract at a `.into()` / `from_raw_unchecked(..)` call site (itself or through
+    # a callee) rests on the conversion's own theorem (group Raw): without it the tie of that function is not counted
+    for n, info in funcs.items():
+        if out[n]["status"] != "proved":
+            continue
+        lost = [c for c in info.get("contracts", []) if out.get(c, {}).get("status") != "proved"]
+        if lost:
+            out[n]["status"] = "unproved"
+            out[n]["reason"] = "rests on the conversion(s) %s whose own source tie is %s" % (
+                ", ".join(lost), ", ".join(out.get(c, {}).get("status", "missing") for c in lost))
+        out[n]["contracts"] = info.get("contracts", [])
+
     res["functions"] = out
     res["log"] = "\n".join(log)
     return res
